@@ -493,7 +493,12 @@ class InProtocolBase(ProtocolMixin):
             if match:
                 retval = _parse_datetime_iso_match(match)
                 if astz:
-                    retval = retval.replace(tzinfo=astz)
+                    if hasattr(astz, 'localize'):
+                        # pytz zones: replace() would pick the zone's first
+                        # (local mean time) offset
+                        retval = astz.localize(retval)
+                    else:
+                        retval = retval.replace(tzinfo=astz)
                 return retval
 
         raise ValidationError(string)
